@@ -76,6 +76,11 @@ theorem returns_kth_arrival (sched : List Choice) (x : Nat) (v : View)
   simp only [Good] at this
   exact ⟨this.2.2, this.2.1⟩
 
+/-- non-vacuity: two arrivals, two receives, the second arrival lands while the first receive is parked. -/
+example : ((run init [.conn .connect, .conn .connect, .start (.recv false), .cons true, .cons true,
+    .cons true, .cons true, .prod, .prod, .prod, .cons true, .cons true, .cons true, .cons true, .prod,
+    .start (.recv true), .cons true, .cons true]).log.map Prod.fst) = [.returned 0, .returned 1] := by decide
+
 /-- `pop(0)` never meets an empty buffer. -/
 theorem no_index_error (sched : List Choice) (v : View) :
     (Outcome.indexErr, v) ∉ (run init sched).log := by
@@ -165,6 +170,10 @@ theorem timeout_only_when_unsignalled_partial (sched : List Choice) (v : View)
   · left; exact ⟨a, by simp only [available]; omega, c⟩
   · right; exact ⟨a, b⟩
 
+/-- non-vacuity: a timeout of the wait on input_event (connected, nothing arrived). -/
+example : ((run init [.conn .connect, .conn .connect, .start (.recv true), .cons true, .cons true,
+    .cons true, .cons true, .timeout]).log.map (fun e => (e.1, e.2.pc))) = [(.timeoutErr, .r3w)] := by decide
+
 /-- the excluded region as a decidable hypothesis: a timeout that is not one of the connection wait. -/
 theorem timeout_only_when_unsignalled_of_input_wait (sched : List Choice) (v : View)
     (h : (Outcome.timeoutErr, v) ∈ (run init sched).log) (hpc : v.pc ≠ .r1w) : available v = 0 := by
@@ -239,6 +248,8 @@ theorem env_run (env : List Choice) (henv : ∀ c ∈ env, isEnv c = true) (s : 
     · show (run (step s c) cs).buf = s.buf ++ (e0 ++ ex)
       rw [h3, g3, List.append_assoc]
 
+example : (run init [.prod, .prod]).cpc = .idle ∧ (run init [.prod, .prod]).buf = [0] := by decide
+
 /-- the same under any interference: whatever the producer and the connection handlers do before,
     between and after the two steps of the next `receive()`, it returns the event that was at the
     head of the buffer when the previous call ended. -/
@@ -264,6 +275,32 @@ theorem next_receive_returns_head_under_interference (s : State) (x : Nat) (rest
   obtain ⟨c1', c2', x3, c3'⟩ := env_run e3 h3 s4
   generalize run s4 e3 = s5 at c1' c2' c3'
   simp [run, step, consStep, c1', hs4.1, c3', hs4.2.2, finish, c2', hs4.2.1]
+
+/-- "the event, if any, is returned by the next receive()": after any schedule that leaves no call
+    in progress (in particular right after a TimeoutError or DisconnectedError) while a signalled
+    arrival is unreturned, the next `receive()` returns exactly the oldest unreturned arrival. -/
+theorem available_event_is_returned_next (sched : List Choice) (t b1 b2 : Bool) :
+    let s := run init sched
+    s.cpc = .idle → s.returned.length < s.signalled →
+      (run s [.start (.recv t), .cons b1, .cons b2]).log.map Prod.fst =
+        s.log.map Prod.fst ++ [.returned s.returned.length] := by
+  intro s hc hlt
+  have hi : Inv s := inv_reach sched
+  have hlen := congrArg List.length hi.conserve
+  simp only [List.length_append] at hlen
+  have hsl := hi.sigLe
+  cases hb : s.buf with
+  | nil => simp [hb] at hlen; omega
+  | cons x rest =>
+    have hx : x = s.returned.length := by
+      have h := hi.ids
+      rw [hi.conserve, hb] at h
+      exact range_split h
+    rw [← hx]
+    exact next_receive_returns_head s x rest t b1 b2 hc hb
+
+example : let s := run init C19.timeoutWitness
+    s.cpc = .idle ∧ s.returned.length < s.signalled := by decide
 
 /-! ## DisconnectedError -/
 
@@ -299,6 +336,11 @@ theorem disconnected_after_drain_partial (sched : List Choice) (v : View)
       have : v.buf.length = 0 := by omega
       exact List.length_eq_zero_iff.mp this
     · rw [hpc] at a; cases a
+
+/-- non-vacuity: DisconnectedError from receive() with everything drained (r2) and from emit() (e2). -/
+example : ((run init [.conn .connect, .conn .connect, .conn .disconnect, .conn .final, .conn .final,
+    .start (.recv false), .cons true, .cons true, .cons true, .start .send, .cons true, .cons true]).log.map
+    (fun e => (e.1, e.2.pc, e.2.buf))) = [(.disconnectedErr, .r2, []), (.disconnectedErr, .e2, [])] := by decide
 
 /-- the schedule reported in KNOWN_FINDINGS (disconnected-before-drain). -/
 def disconnectedWitness : List Choice :=
@@ -342,6 +384,12 @@ theorem emit_waits (sched : List Choice) (o : Outcome) (v : View)
     · intro hp
       rcases hg.2.2 with ⟨a, _⟩ | ⟨a, _⟩ <;> (rw [a] at hp; simp at hp)
   · exact ⟨by simp, fun _ => ⟨hg.1, hg.2.1⟩, by simp, fun _ => Or.inr ⟨rfl, hg.1⟩⟩
+
+/-- non-vacuity: emit() during a reconnection: refused once by the client, parked, released by the
+    connect handler, accepted. -/
+example : ((run init [.conn .connect, .conn .connect, .start .send, .cons true, .cons true,
+    .conn .disconnect, .cons false, .cons true, .conn .connect, .conn .connect, .cons true, .cons true,
+    .cons true]).log.map Prod.fst) = [.sent] := by decide
 
 /-- while a reconnection is in progress (a disconnect handler ran, no connect/final handler has set
     the event since) the connected event is clear, an emit()/call() that reaches the wait parks
